@@ -60,6 +60,10 @@ type lifeScenario struct {
 	CallbackWork time.Duration
 	ReadTimeout  time.Duration
 	AddrCaller   bool
+	Trigger      string        // what the controller waits for before acting: "time" | "handler_start" | "handler_end" | "accept" | "write_begin"
+	TriggerN     int           // the n-th such event
+	TriggerDelay time.Duration // then this much later
+	WriteDelay   time.Duration // simulated duration of every server-side write
 	Race         bool
 }
 
@@ -83,6 +87,7 @@ type lifeOutcome struct {
 	HandlerStart                       map[uint16]int // tid -> step
 	HandlerEnd                         map[uint16]int
 	ShutdownStartStep, ShutdownRetStep int
+	WritesBegun                        int
 	ShutdownErr                        error
 	ShutdownDone                       bool
 	ShutdownAt                         time.Duration
@@ -159,6 +164,12 @@ func genC17(t *Tape) *lifeScenario {
 	sc.CallbackWork = []time.Duration{0, 0, time.Millisecond, 8 * time.Millisecond}[t.Choose(4)]
 	sc.ReadTimeout = []time.Duration{0, 2 * time.Millisecond, 20 * time.Millisecond}[t.Choose(3)]
 	sc.AddrCaller = t.Chance(1, 4)
+	// Half of the runs aim the controller at an event instead of a time: shutdown/cancel right after the n-th handler
+	// start, handler end (reply pending), accept or server write begin - windows that have zero simulated duration.
+	sc.Trigger = []string{"time", "time", "handler_start", "handler_end", "accept", "write_begin"}[t.Choose(6)]
+	sc.TriggerN = 1 + t.Choose(3)
+	sc.TriggerDelay = []time.Duration{0, 0, 200 * time.Microsecond, 3 * time.Millisecond}[t.Choose(4)]
+	sc.WriteDelay = []time.Duration{0, 0, time.Millisecond, 15 * time.Millisecond}[t.Choose(4)]
 	return sc
 }
 
@@ -239,6 +250,18 @@ func runLife(rc *RunCtx, sc *lifeScenario, seed uint64) *lifeOutcome {
 	defer s.Activate()()
 
 	ln := NewListener(s, "L")
+	ln.ConnSetup = func(cl, sv *Conn) {
+		if sc.WriteDelay > 0 {
+			sv.WriteDelay = func() time.Duration { return sc.WriteDelay }
+		}
+		if !sc.Race {
+			sv.OnWriteBegin = func(*Conn) {
+				out.mu.Lock()
+				out.WritesBegun++
+				out.mu.Unlock()
+			}
+		}
+	}
 	h := &lifeHandler{s: s, out: out, ops: map[uint16]*lifeOp{}, seed: seed, race: sc.Race}
 	for ci := range sc.Clients {
 		for oi := range sc.Clients[ci].Ops {
@@ -368,8 +391,37 @@ func runLife(rc *RunCtx, sc *lifeScenario, seed uint64) *lifeOutcome {
 	})
 	actionDone := false
 	s.Go("controller", false, func(tk *Task) {
-		if tk.Sleep("action-timer", sc.ActionAt) == Drained {
-			return
+		if sc.Trigger == "time" || sc.Race {
+			if tk.Sleep("action-timer", sc.ActionAt) == Drained {
+				return
+			}
+		} else {
+			count := func() int {
+				out.mu.Lock()
+				defer out.mu.Unlock()
+				switch sc.Trigger {
+				case "handler_start":
+					return len(out.HandlerStart)
+				case "handler_end":
+					return len(out.HandlerEnd)
+				case "write_begin":
+					return out.WritesBegun
+				}
+				n := 0
+				for _, c := range ln.Conns {
+					if c.acceptedByServer {
+						n++
+					}
+				}
+				return n
+			}
+			// if the event never comes the controller acts at a late fixed time instead
+			if tk.WaitUntil("await-"+sc.Trigger, func() bool { return count() >= sc.TriggerN }, time.Now().Add(600*time.Millisecond)) == Drained {
+				return
+			}
+			if sc.TriggerDelay > 0 && tk.Sleep("trigger-delay", sc.TriggerDelay) == Drained {
+				return
+			}
 		}
 		switch sc.Action {
 		case "cancel":
